@@ -9,6 +9,7 @@
 //	                        engine switches, probed from the real engine at start-up (see probe.go)
 //	1 remote persist wire <items> <filter partial> <filter delete>     one update (harness/upd encoding)
 //	2                       DataCopy, the result kept
+//	5 remote persist wire … as 1, but the store is NOT read back with DataCopy after the update
 //	3 / 4 ...               family 5, see usecase.go
 //
 // obs encoding: 10 code | 15 kind oc ac <items> (object handed out: 0 DataCopy, 1 returned data, 2 event
@@ -98,7 +99,10 @@ func (m *impl) Close() { m.w.Close() }
 
 func (m *impl) Exec(op hx.Zs) []hx.Zs {
 	obs := m.w.Exec(op)
-	if len(op) > 0 && op[0] == 1 && len(obs) > 0 && len(obs[0]) == 2 {
+	if len(op) > 0 && (op[0] == 1 || op[0] == 5) && len(obs) > 0 && len(obs[0]) == 2 {
+		if op[0] == 5 {
+			stats["updates_not_read_back"]++
+		}
 		kinds[classify(m.w.ti, op, obs[0][1])]++
 		switch {
 		case obs[0][1] == 1:
@@ -145,6 +149,7 @@ func gen(r *hx.Rng, tier string, i int) []hx.Zs {
 	h[0] = initOp(ti, fam)
 	h = addFilterless(r, ti, fam, h)
 	h = nestTags(r, ti, h)
+	h = unobserved(r, ti, fam, h)
 	perType[string(ti.Function)]++
 	perFamily[fmt.Sprint(fam)]++
 	return h
@@ -260,7 +265,7 @@ func filterAt(op hx.Zs, pos int) (elems []int, next int, ok bool) {
 // that names sub elements (2: the first one, 3: all of them, two levels deep) instead of the empty tag
 func nestTags(r *hx.Rng, ti *upd.TypeInfo, h []hx.Zs) []hx.Zs {
 	for i, op := range h {
-		if len(op) < 6 || op[0] != 1 {
+		if len(op) < 6 || (op[0] != 1 && op[0] != 5) {
 			continue
 		}
 		pos := 6 + int(op[4])*int(op[5])
@@ -286,6 +291,118 @@ func nestTags(r *hx.Rng, ti *upd.TypeInfo, h []hx.Zs) []hx.Zs {
 		}
 	}
 	return h
+}
+
+// inPlaceUpdate: an update that writes into existing items (identifier-less data for all items, a
+// selector update by identifier, a delete filter with elements), encoded without read-back
+func inPlaceUpdate(r *hx.Rng, ti *upd.TypeInfo, remote, persist, wire int64) hx.Zs {
+	none := upd.Filter{}
+	var op hx.Zs
+	switch r.Pick(3, 3, 2) {
+	case 0:
+		op = ti.EncodeUpdate(remote, persist, wire, [][]int64{genItem(r, ti, false)}, upd.Filter{Present: true}, none)
+	case 1:
+		key := genItem(r, ti, true)
+		sel := make([]int64, len(ti.Sel))
+		found := false
+		for j, sf := range ti.Sel {
+			if sf.Kind != upd.SField {
+				continue
+			}
+			for _, k := range ti.Keys {
+				if sf.Index == k {
+					sel[j] = key[k]
+					found = true
+				}
+			}
+		}
+		if !found {
+			return inPlaceUpdate(r, ti, remote, persist, wire)
+		}
+		op = ti.EncodeUpdate(remote, persist, wire, [][]int64{genItem(r, ti, false)}, upd.Filter{Present: true, Sel: sel}, none)
+	default:
+		if ti.ElemType == nil {
+			return inPlaceUpdate(r, ti, remote, persist, wire)
+		}
+		el := make([]int64, len(ti.Elems))
+		isKey := map[int]bool{}
+		for _, k := range ti.Keys {
+			isKey[k] = true
+		}
+		n := 0
+		for j, i := range ti.Elems {
+			if i >= 0 && !isKey[i] && !ti.Fields[i].WriteCheck && r.Bool() {
+				el[j] = 1
+				n++
+			}
+		}
+		if n == 0 {
+			return inPlaceUpdate(r, ti, remote, persist, wire)
+		}
+		op = ti.EncodeUpdate(remote, persist, wire, nil, none, upd.Filter{Present: true, Elems: el})
+	}
+	op[0] = 5
+	return op
+}
+
+// unobserved: stretches in which the store is NOT read back through DataCopy.  The runner's own
+// DataCopy after every update is an access to the FunctionData like any other; code that keeps
+// state across calls (say, "nobody holds a copy since the last persisted update") behaves
+// differently when nobody looks.  (a) half of the histories of the API families get most of their
+// updates turned into updates without read-back and most DataCopy operations in between removed;
+// (b) two thirds get a stretch appended: a persisted partial update (list built by the update),
+// then 1-2 in-place updates that must not change the store (no persistence, or a refused remote
+// write), none of them read back; the history always ends with a DataCopy that is compared with the
+// model's prediction for the whole stretch (and judged by the deferred clauses of the monitor),
+// the data returned by the persisted update is kept and watched all along.
+func unobserved(r *hx.Rng, ti *upd.TypeInfo, fam int, h []hx.Zs) []hx.Zs {
+	if len(h) < 2 {
+		return h
+	}
+	if r.Bool() {
+		out := h[:1:1]
+		for _, op := range h[1:] {
+			switch {
+			case op[0] == 1 && r.Chance(3, 4):
+				q := append(hx.Zs(nil), op...)
+				q[0] = 5
+				out = append(out, q)
+			case op[0] == 2 && r.Chance(3, 4):
+			default:
+				out = append(out, op)
+			}
+		}
+		h = out
+	}
+	if r.Chance(2, 3) {
+		none := upd.Filter{}
+		var items [][]int64
+		for k := r.Range(1, 3); k > 0; k-- {
+			items = append(items, genItem(r, ti, true))
+		}
+		wire := int64(0)
+		if fam == 2 && r.Chance(1, 3) {
+			wire = int64(1 + r.Intn(2))
+		}
+		first := ti.EncodeUpdate(0, 1, wire, items, upd.Filter{Present: true}, none)
+		first[0] = 5
+		h = append(h, first)
+		for k := r.Range(1, 2); k > 0; k-- {
+			switch fam {
+			case 0:
+				if r.Bool() {
+					h = append(h, inPlaceUpdate(r, ti, int64(r.Intn(2)), 0, 0))
+				} else {
+					h = append(h, inPlaceUpdate(r, ti, 1, 1, 0)) // fails on unwritable items only
+				}
+			case 2:
+				h = append(h, inPlaceUpdate(r, ti, 0, 0, 0))
+			default:
+				h = append(h, inPlaceUpdate(r, ti, 1, 1, 1)) // inbound write: fails on unwritable items only
+			}
+		}
+	}
+	return append(h, hx.Zs{2})
 }
 
 // classify names the update kind of an operation for the measured distribution
@@ -388,6 +505,15 @@ func fixed(tier string) [][]hx.Zs {
 			ti.EncodeUpdate(0, 1, 0, nil, sel(2), none),
 			ti.EncodeUpdate(0, 1, 0, [][]int64{{0, 5, 0}}, sel(3), none), {2}})
 	}
+	// unobserved stretch: a persisted partial update, then in-place updates without persistence, none
+	// of them read back, then DataCopy (the returned data of the first is kept all along)
+	for _, fam := range []int{0, 2} {
+		qt := func(op hx.Zs) hx.Zs { op[0] = 5; return op }
+		out = append(out, []hx.Zs{initOp(ti, fam),
+			qt(ti.EncodeUpdate(0, 1, 0, [][]int64{{2, 1, 1}, {3, 1, 1}}, part, none)),
+			qt(ti.EncodeUpdate(0, 0, 0, [][]int64{{0, 5, 0}}, sel(3), none)),
+			qt(ti.EncodeUpdate(0, 0, 0, [][]int64{{0, 0, 6}}, part, none)), {2}})
+	}
 	// the filter-less path: no filters, persist=false, an item without identifier (copyToAllData writes in
 	// place), an identified list (Merge), and mixed; after a DataCopy
 	for _, fam := range []int{0, 2} {
@@ -451,7 +577,7 @@ func main() {
 		Property: "C11",
 		Clauses: map[int64]string{1: "handed-out-data-changed", 2: "non-persisting-update-changed-store",
 			3: "failed-update-changed-store", 4: "malformed-observation", 98: "unparseable-observation", 99: "unparseable-operation"},
-		OpNames: map[int64]string{0: "init", 1: "update", 2: "snapshot", 3: "usecase-datacopy", 4: "usecase-operation"},
+		OpNames: map[int64]string{0: "init", 1: "update", 2: "snapshot", 3: "usecase-datacopy", 4: "usecase-operation", 5: "update-not-read-back"},
 		NewImpl: newImpl,
 		Gen:     gen,
 		Fixed:   fixed,
